@@ -49,6 +49,15 @@ def run(res, tier, seed, broken):
     if err:
         broken = broken + [{"obligation": "implementation side failed to run", "log": err[-3000:]}]
 
+    # every differential operator used inside another differentiation, closing over the outer variable
+    o_, e_ = C.run_impl("impl_ops_nested.py", {"seed": seed, "n": 12 if tier == "thorough" else 3})
+    if o_ is None:
+        broken = broken + [{"obligation": "nested-operator family failed to run", "log": (e_ or "")[-3000:]}]
+    else:
+        res.add_cases(o_["n"], o_["keys"], [])
+        res.count("nested-operator-pairs", o_["dist"].get("nested-operator-pairs", 0))
+        bad = bad + [dict(b, exp=b["inner"] + " in " + b["outer"]) for b in o_["bad"]]
+
     def hunt():
         for k in range(4 if big else 2):
             b, _, _ = explore(res, "c16_hunt%d" % k, seed + 61 + k, 1500, 60)
